@@ -198,7 +198,17 @@ if (require.main === module) {
     let req;
     try { req = JSON.parse(line); } catch (e) { process.stdout.write(JSON.stringify({ error: 'bad json' }) + '\n'); return; }
     try {
-      const s = loadScript(req.script);
+      let s;
+      try {
+        s = loadScript(req.script);
+      } catch (e) {
+        if (e instanceof SyntaxError) {
+          // the emitted file is not valid JavaScript: that is the program's behaviour, not a harness problem
+          process.stdout.write(JSON.stringify({ id: req.id, out: [], end: 'syntax-error:' + e.message, points: [], diverged: null }) + '\n');
+          return;
+        }
+        throw e;
+      }
       if (req.probe) {
         req.globals = Object.assign({}, req.globals);
       }
